@@ -81,6 +81,7 @@ CONSTANTS
   MaxRoute,          \* ClusterConfig.MaxRoutingKeyInfo
   PkFromPrepare,     \* TRUE: protocol >= 4, the PREPARE answer names the partition key binds
   TakeAll,           \* TRUE: a batch is everything queued; FALSE: also any prefix
+  KsFailureIsNotExist,\* TRUE: driver model of gocql as it is - a FAILED keyspaces query is reported as ErrKeyspaceDoesNotExist
   DefectNoConnCached,\* TRUE: driver model of gocql as it is - the "no connection available" error stays in the cache
   Variant            \* "ok", or a deliberately wrong driver model
 
@@ -118,7 +119,7 @@ InitState(p) ==
    epc |-> "idle",               \* idle | clear | agree | policy
    mu |-> "",                    \* schemaDescriber.mu holder
    cache |-> [k \in Keyspaces |-> NoSnap],
-   g |-> [x \in ActorsOf(p) \cup {Pol} |-> [pc |-> "idle", k |-> "", tmp |-> 0, res |-> NoRes, floor |-> 0, own |-> FALSE]],
+   g |-> [x \in ActorsOf(p) \cup {Pol} |-> [pc |-> "idle", k |-> "", tmp |-> 0, res |-> NoRes, floor |-> 0, own |-> FALSE, abs |-> FALSE]],
    a |-> [x \in ActorsOf(p) |-> [idx |-> 1, pc |-> "ready", cur |-> 0, out |-> NoOut, nout |-> 0, rfloor |-> 0]],
    rlru |-> <<>>, rent |-> [x \in {} |-> 0], rfl |-> <<>>,
    up |-> TRUE,
@@ -137,7 +138,7 @@ HasOp(T, x) == T.a[x].idx <= Len(T.plan[x])
 
 -----------------------------------------------------------------------------
 \* getSchema (metadata.go), run by a caller, by a router (nested) or by the event goroutine (Pol)
-GWant(T, x, k, fl) == [T EXCEPT !.g[x] = [pc |-> "want", k |-> k, tmp |-> 0, res |-> NoRes, floor |-> fl, own |-> FALSE]]
+GWant(T, x, k, fl) == [T EXCEPT !.g[x] = [pc |-> "want", k |-> k, tmp |-> 0, res |-> NoRes, floor |-> fl, own |-> FALSE, abs |-> FALSE]]
 
 GLockEn(T, x) == T.g[x].pc = "want" /\ T.mu = ""
 GLock(T, x) ==
@@ -154,9 +155,10 @@ GAnsKs(T, x, ans) ==
   LET k == T.g[x].k
       v == T.sv[k] IN
   IF ans = "fail" THEN
-    [Unlock(T, x) EXCEPT !.g[x].pc = "done", !.g[x].res = [t |-> "err", ks |-> 0, tb |-> 0], !.fails = @ + 1, !.ngone[k] = @ + 1]
+    [Unlock(T, x) EXCEPT !.g[x].pc = "done", !.g[x].res = [t |-> IF KsFailureIsNotExist THEN "notexist" ELSE "err", ks |-> 0, tb |-> 0],
+                         !.fails = @ + 1, !.ngone[k] = @ + 1]
   ELSE IF v \in AbsentVers THEN
-    [Unlock(T, x) EXCEPT !.g[x].pc = "done", !.g[x].res = [t |-> "notexist", ks |-> 0, tb |-> 0], !.ngone[k] = @ + 1]
+    [Unlock(T, x) EXCEPT !.g[x].pc = "done", !.g[x].res = [t |-> "notexist", ks |-> 0, tb |-> 0], !.g[x].abs = TRUE, !.ngone[k] = @ + 1]
   ELSE [T EXCEPT !.g[x].pc = "r_tb", !.g[x].tmp = v]
 
 GAnsTbEn(T, x, ans) == T.g[x].pc = "r_tb" /\ (ans = "fail" => T.fails < MaxFail)
@@ -259,7 +261,9 @@ RPrep1(T, x, ans) ==
   IF ans = "fail" THEN
     LET T1 == IF Variant = "route_cache_failure" THEN T ELSE RDrop(T, s) IN
     [T1 EXCEPT !.rfl[f].st = "fail", !.a[x].pc = "r_pub"]
-  ELSE IF PkFromPrepare THEN
+  \* protocol 4: the PREPARE answer names the bind positions of the partition key when all of them are bound;
+  \* otherwise (and with older protocols) the table's metadata is consulted
+  ELSE IF PkFromPrepare /\ RoutingIdx(PK(T.sv[k]), Binds(s)) # <<>> THEN
     [T EXCEPT !.rfl[f].st = "ok", !.rfl[f].val = RoutingIdx(PK(T.sv[k]), Binds(s)), !.rfl[f].ver = T.sv[k], !.a[x].pc = "r_pub"]
   ELSE [GWant(T, x, k, T.a[x].rfloor) EXCEPT !.a[x].pc = "r_meta"]
 
@@ -357,6 +361,9 @@ FailedNotCached ==
   \A k \in Keyspaces : S.cache[k] # NoSnap => (S.cache[k].ks >= 1 /\ S.cache[k].tb >= 1 /\ S.cache[k].ks \notin AbsentVers)
 ErrorIsOwn ==
   \A x \in DOMAIN S.g : (S.g[x].pc = "done" /\ S.g[x].res.t \in {"err", "notexist"}) => S.g[x].own
+\* [M1] "Returns an error if the keyspace does not exist": ErrKeyspaceDoesNotExist says that the cluster has no such keyspace
+NotExistOnlyIfAbsent ==
+  \A x \in DOMAIN S.g : (S.g[x].pc = "done" /\ S.g[x].res.t = "notexist") => S.g[x].abs
 \* [M2] one cache shared by all callers: a keyspace is fetched again only after its entry was dropped or a fetch failed
 SharedCache == \A k \in Keyspaces : S.nref[k] <= 1 + S.ngone[k]
 
